@@ -1,4 +1,4 @@
-SPECIFICATION SpecLedger
+SPECIFICATION SpecRelist
 CONSTANTS
   MaxLinks = 0
   LinkLens <- None
@@ -7,10 +7,11 @@ CONSTANTS
   SegLens <- None
   Rises <- None
   TrainLens <- None
-  MaxSteps = 3
-  Pows <- P3
+  MaxSteps = 0
+  Pows <- None
   Fault = FALSE
-  MaxUnits = 0
-  Cached = FALSE
-INVARIANT LedgerB
+  MaxUnits = 2
+  Cached = TRUE
+INVARIANT RelistResKm
+INVARIANT RelistNonResKm
 CHECK_DEADLOCK FALSE
